@@ -14,7 +14,13 @@
 //! Oracle: the vector of answers equals the vector the reference model gives
 //! for the control state BEFORE the event or for the state AFTER it (after
 //! only, when the event answered 200) — never a third state such as "binding
-//! exists, database does not".
+//! exists, database does not". Further: (a) an event that answered an error
+//! while none of its backend mutations landed changed nothing for any
+//! credential; (b) the live instance and the gracefully restarted one are the
+//! same model state; (c) on a second fresh replay the faulted event is
+//! repeated fault-free, the store is powered off (no graceful close) and a new
+//! instance started: a retry that was acknowledged (2xx) holds, live and after
+//! the power failure.
 
 use serde_json::{Value, json};
 use std::collections::BTreeSet;
@@ -147,6 +153,104 @@ struct Outcome {
     third_states: Vec<(&'static str, Vec<String>, Vec<String>)>,
     error: Option<String>,
     restart_failed: bool,
+    /// Backend mutations of the faulted event that landed in the store.
+    landed: u64,
+    /// Further findings: (signature tail, description, detail)
+    issues: Vec<(String, String, Value)>,
+}
+
+/// Which of the two model states an observed answer vector equals.
+fn which(v: &Vector, before: &Model, after: &Model, ps: &[Principal], ts: &[Target]) -> &'static str {
+    let b = diff(v, &expect(before, ps, ts)).is_empty();
+    let a = diff(v, &expect(after, ps, ts)).is_empty();
+    match (b, a) {
+        (true, true) => "both",
+        (true, false) => "before",
+        (false, true) => "after",
+        (false, false) => "neither",
+    }
+}
+
+/// The retry stage: faulted event, the same event again without a fault,
+/// then a power failure (no graceful close) and a new instance. An
+/// acknowledged (2xx) retry must hold, live and after the power failure.
+fn run_retry(job: &Job, o: &mut Outcome) {
+    let Some((k, land)) = job.fault else { return };
+    let rt = runtime();
+    let stage1 = rt.block_on(async {
+        let (mut w, before, _) = build_world(job.base.root, &job.base.history).await?;
+        let mut after = before.clone();
+        after.apply(job.event);
+        let (method, params) = event_request(&before, job.event).ok_or("event without request")?;
+        let m0 = w.ctl.mutation_attempts();
+        w.ctl.script(m0 + k, if land { Answer::ErrAfter } else { Answer::ErrBefore });
+        let (first, _) = w.send(&rpc("/", admin_auth(&w.admin), Enc::Cbor, method, params.clone())).await;
+        w.ctl.reset_faults();
+        let (retry, _) = w.send(&rpc("/", admin_auth(&w.admin), Enc::Cbor, method, params)).await;
+        let ps = probe_principals(&after);
+        let ts = probe_targets();
+        let mut evals = 0;
+        let live = observe(&mut w, &ps, &ts, &mut evals).await;
+        w.ctl.power_off();
+        Ok::<_, String>((w.store.clone(), w.ctl.clone(), w.admin.clone(), before, after, ps, ts, first.status, retry, live, evals))
+    });
+    drop(rt); // the process dies: nothing it spawned runs any more
+    let (store, ctl, admin, before, after, ps, ts, first_status, retry, live, evals) = match stage1 {
+        Ok(x) => x,
+        Err(e) => {
+            o.error = Some(format!("retry stage: {e}"));
+            return;
+        }
+    };
+    o.worlds += 1;
+    o.evals += evals;
+    ctl.reset_faults();
+    if !(200..300).contains(&retry.status) {
+        return; // nothing was acknowledged
+    }
+    let ev = event_kind(job.event);
+    let ans = if land { "ErrAfter" } else { "ErrBefore" };
+    let live_is = which(&live, &before, &after, &ps, &ts);
+    if !matches!(live_is, "after" | "both") {
+        o.issues.push((
+            format!("acknowledged-retry-not-applied|{ev}|{ans}|live"),
+            format!(
+                "the event answered {first_status} under the fault, its fault-free retry answered {} ({}), yet the credentials are answered as in the state `{live_is}` (vs after: {:?})",
+                retry.status,
+                retry.body_value().map(|v| v.to_string()).unwrap_or_default(),
+                diff(&live, &expect(&after, &ps, &ts))
+            ),
+            json!({"first_status": first_status, "retry": retry.to_json(), "live_equals": live_is}),
+        ));
+    }
+    let rt = runtime();
+    let crashed = rt.block_on(async {
+        let mut w = World::boot_over(store, ctl, admin.as_deref()).await?;
+        let mut evals = 0;
+        let v = observe(&mut w, &ps, &ts, &mut evals).await;
+        w.shutdown().await;
+        Ok::<_, String>((v, evals))
+    });
+    drop(rt);
+    match crashed {
+        Ok((v, evals)) => {
+            o.evals += evals;
+            let is = which(&v, &before, &after, &ps, &ts);
+            if !matches!(is, "after" | "both") {
+                o.issues.push((
+                    format!("acknowledged-retry-not-durable|{ev}|{ans}|after-power-failure"),
+                    format!(
+                        "the event answered {first_status} under the fault, its fault-free retry was acknowledged with {} ({}), but after a power failure and restart the credentials are answered as in the state `{is}` (vs after: {:?})",
+                        retry.status,
+                        retry.body_value().map(|v| v.to_string()).unwrap_or_default(),
+                        diff(&v, &expect(&after, &ps, &ts))
+                    ),
+                    json!({"first_status": first_status, "retry": retry.to_json(), "after_power_failure_equals": is}),
+                ));
+            }
+        }
+        Err(_) => o.restart_failed = true,
+    }
 }
 
 fn run_job(job: Job) -> Outcome {
@@ -161,6 +265,8 @@ fn run_job(job: Job) -> Outcome {
             third_states: vec![],
             error: None,
             restart_failed: false,
+            landed: 0,
+            issues: vec![],
         };
         let (mut w, before, _) = match build_world(job.base.root, &job.base.history).await {
             Ok(x) => x,
@@ -179,9 +285,10 @@ fn run_job(job: Job) -> Outcome {
         if let Some((k, land)) = job.fault {
             w.ctl.script(m0 + k, if land { Answer::ErrAfter } else { Answer::ErrBefore });
         }
-        let (resp, _) = w.send(&rpc("/", admin_auth(&w.admin), Enc::Cbor, method, params)).await;
+        let (resp, trace) = w.send(&rpc("/", admin_auth(&w.admin), Enc::Cbor, method, params)).await;
         o.event_status = resp.status;
         o.mutations = w.ctl.mutation_attempts() - m0;
+        o.landed = trace.mutations.len() as u64;
         w.ctl.reset_faults();
         if job.fault.is_none() {
             w.shutdown().await;
@@ -195,12 +302,53 @@ fn run_job(job: Job) -> Outcome {
         if !ok {
             o.third_states.push(("live", db, da));
         }
+        let ev = event_kind(job.event);
+        let ans = if job.fault.map(|f| f.1).unwrap_or(false) { "ErrAfter" } else { "ErrBefore" };
+        let live_is = which(&live, &before, &after, &ps, &ts);
+        // (a) the event answered an error and not one of its backend
+        // mutations landed: nothing may have changed for any credential
+        if resp.status != 200 && o.landed == 0 && !matches!(live_is, "before" | "both" | "neither") {
+            o.issues.push((
+                format!("failed-event-took-effect|{ev}|{ans}"),
+                format!(
+                    "the event answered {} and none of its backend mutations landed, yet the credentials are answered as in the state AFTER it (vs before: {:?})",
+                    resp.status,
+                    diff(&live, &expect(&before, &ps, &ts))
+                ),
+                json!({"event_status": resp.status, "landed_mutations": 0, "live_equals": live_is}),
+            ));
+        }
         match w.restart().await {
             Ok(mut w2) => {
                 let again = observe(&mut w2, &ps, &ts, &mut o.evals).await;
                 let (db, da) = (diff(&again, &expect(&before, &ps, &ts)), diff(&again, &expect(&after, &ps, &ts)));
                 if !db.is_empty() && !da.is_empty() {
-                    o.third_states.push(("after-restart", db, da));
+                    o.third_states.push(("after-restart", db.clone(), da.clone()));
+                }
+                // (b) nothing ran between the probes and the graceful
+                // restart: both must be the same model state
+                let again_is = which(&again, &before, &after, &ps, &ts);
+                let agree = matches!(
+                    (live_is, again_is),
+                    ("both", _) | (_, "both") | ("before", "before") | ("after", "after") | ("neither", _) | (_, "neither")
+                );
+                // (db.close is exempt by its documented contract: when the
+                // registry write fails the database still closes, the error
+                // is returned and a restart reopens it — state.rs close_db)
+                let binding_event = matches!(
+                    job.event,
+                    Event::Create { key: true, .. } | Event::SetKey { .. } | Event::RemoveKey { .. }
+                );
+                if !agree && binding_event {
+                    o.issues.push((
+                        format!("live-and-restart-disagree|{ev}|{ans}"),
+                        format!(
+                            "after the faulted event (status {}, {} of its mutations landed) the live instance answers the credentials as in the state `{live_is}`, the gracefully restarted instance as in the state `{again_is}`",
+                            resp.status, o.landed
+                        ),
+                        json!({"event_status": resp.status, "landed_mutations": o.landed, "live_equals": live_is, "after_restart_equals": again_is,
+                               "live_vs_before": diff(&live, &expect(&before, &ps, &ts)), "restart_vs_before": db, "restart_vs_after": da}),
+                    ));
                 }
                 w2.shutdown().await;
             }
@@ -209,6 +357,10 @@ fn run_job(job: Job) -> Outcome {
         o
     });
     drop(rt);
+    let mut out = out;
+    if out.error.is_none() && job.fault.is_some() {
+        run_retry(&job, &mut out);
+    }
     out
 }
 
@@ -348,8 +500,10 @@ fn main() {
          control-plane event x every backend mutation index of that event (counted by a dry run) x {ErrBefore, ErrAfter}: fresh replay, the event \
          with that one mutation faulted, then {none, garbage, every issued / revoked / the mentioned / one unissued token of A and B} x POST {/, /A, /B, /missing} \
          (info, compared with the same caller's answer for a nonexistent database), live and after a restart; the answer vector must be the model's \
-         vector for the state before or after the event. distinct = (event kind, fault answer, mutation index, state)",
+         vector for the state before or after the event; an error answer with zero landed mutations means the state before; live and restarted agree; \
+         and on a second replay: faulted event, fault-free retry of the same event, power failure, new instance: an acknowledged retry holds. distinct = (event kind, fault answer, mutation index, state)",
     );
+    run.assume("live/restart agreement is demanded for the events that change a binding (create with key, set_api_key, remove_api_key); a failed db.close is documented to close live and reopen on restart");
     run.assume("one faulted backend mutation per event; each backend mutation is atomic; faults are cleared before the credentials are tried");
     run.finish();
 }
@@ -372,8 +526,28 @@ fn report(run: &mut Run, o: Outcome, verbose: bool) {
     if verbose {
         println!("event answered {}; third states: {}", o.event_status, o.third_states.len());
     }
-    if o.third_states.is_empty() && run.get("transitions") % 97 == 1 {
+    if o.third_states.is_empty() && o.issues.is_empty() && run.get("transitions") % 97 == 1 {
         run.sample(json!({"job": job_json(&o.job), "event_status": o.event_status, "verdict": "answers equal the model's vector for the state before or after the event, live and after a restart"}));
+    }
+    for (sig, what, detail) in &o.issues {
+        THIRD.lock().unwrap().push(format!(
+            "{sig} | {} | mutation #{k} | event status {}",
+            o.job.base.model.canon(),
+            o.event_status
+        ));
+        let summary = format!(
+            "`{}` in state {} with its backend mutation #{k} answered {ans}: {what}",
+            event_kind(o.job.event),
+            o.job.base.model.canon()
+        );
+        if verbose {
+            println!("{summary}");
+        }
+        run.violation(Violation {
+            signature: format!("C14|{sig}"),
+            summary,
+            replay: json!({"job": job_json(&o.job), "event_status": o.event_status, "detail": detail}),
+        });
     }
     for (stage, _, _) in &o.third_states {
         THIRD.lock().unwrap().push(format!(
